@@ -153,7 +153,7 @@ func runC11(c *Ctx) {
 				// success: a nil error, or ok == true
 				if len(r.Vals) == 3 && (r.Vals[2].IsNil() || (r.Vals[2].Op == "bool" && r.Vals[2].B == True)) {
 					line := r.Vals[0]
-					okLine := line.Op == "convert" && line.Args[0].key == bytes.key
+					okLine := (line.Op == "convert" && line.Args[0].key == bytes.key) || line.key == bytes.key // string(bytes read), or the string read
 					if r.Vals[1].key == pos0.key && okLine {
 						okRet = true
 					} else if bad == "" {
